@@ -424,6 +424,26 @@ def build() -> Check:
         and isinstance(hce.node.body[-1], ast.Return) and "InvocationStatus.FAILED" in ast.unparse(hce.node.body[-1])
     ck.ob("R5.envelope-opened-by-classification", fn_construct(hce), ok_hce, "handle_checkpoint_error does not raise exactly the retriable errors and answer FAILED for the others", cell="classifier")
 
+    # R5 the look itself (one FAILCHECK event in the wrapper model): seen raised, the stored error is raised - only the marker of an orderly stop is let go
+    from sa.protocol import failure_look_traces
+    flt = failure_look_traces(pm)
+    n_seen = 0
+    bad_l = []
+    for t in flt:
+        seen_ = [e for e in t.events if e.kind == "EV_ISSET" and "checkpointing_failed" in e.data["ev"] and e.data.get("result")]
+        if not seen_:
+            if t.outcome != "return":
+                bad_l.append("raises although the failure flag is not set")
+            continue
+        n_seen += 1
+        if t.outcome != "raise" or not (t.exc_class() or "").endswith("BackgroundThreadError"):
+            bad_l.append("the failure flag is seen raised and nothing is raised: the wrapper goes on to answer SUCCEEDED / PENDING after a failed checkpoint call")
+    rif = prog.func("state", "ExecutionState.raise_if_checkpointing_failed")
+    ck.floor("failure_look_paths_with_the_flag_raised", n_seen, 1)
+    let_go = {ast.unparse(n_.args[1]) for n_ in ast.walk(rif.node) if isinstance(n_, ast.Call) and isinstance(n_.func, ast.Name) and n_.func.id == "isinstance" and len(n_.args) == 2}
+    ck.ob("R5.failure-look-raises-what-it-finds", fn_construct(rif), not bad_l and let_go <= {"CheckpointingStoppedError"},
+          (bad_l[0] if bad_l else f"errors of class {sorted(let_go)} are let go: only the marker of an orderly stop may be"))
+
     # R5b a failure of a call that carried only fire-and-forget updates (context STARTs, the empty refresh of a resume timer) wakes nobody in the
     # handler's thread: the handler can finish or suspend normally. The verdict SUCCEEDED / PENDING may therefore only be given after the
     # wrapper itself has looked at the failure state (necessary condition: some read of it follows the handler's outcome on every such path)
